@@ -24,18 +24,21 @@ def showRes : Res → String
   | .needPass m => s!"needpass pub={toHex m}"
   | .badPass => "badpass"
   | .oracleMiss => "oracle-miss"
+  | .kdfMismatch => "kdf-mismatch"
   | .ok k _ => s!"ok kind={kindStr k} pub={toHex k.pub.marshal} sec={secHex k} sv=1"
 
 /-- `parse mode=plain|pass blob= dec=<hex|err|none> rsavalid=<0|1|none> edpub=<hex|none> ecpub=<hex|none> pts=` -/
 def handleParse (o : Op) : String :=
   match o.hex? "blob", ptsOracle? o, optHex? o "edpub", optHex? o "ecpub" with
   | some blob, some po, some edpub, some ecpub =>
-    let dec : Option (Option (Option Bytes)) :=
-      match o.get? "dec" with
-      | none => some none
-      | some "none" => some none
-      | some "err" => some (some none)
-      | some _ => (o.hex? "dec").map (fun b => some (some b))
+    let dec : Option (Option (Bytes × Bytes)) :=
+      match o.get? "dec", o.get? "kdfkey" with
+      | some "none", _ => some none
+      | none, _ => some none
+      | some _, some _ => (match o.hex? "kdfkey", o.hex? "dec" with
+        | some k, some d => some (some (k, d))
+        | _, _ => none)
+      | _, _ => none
     let rv : Option (Option Bool) :=
       match o.get? "rsavalid" with
       | some "1" => some (some true)
@@ -48,7 +51,7 @@ def handleParse (o : Op) : String :=
       let orc : Oracles := ⟨po, dec, rv, edpub, ecpub⟩
       let r := match o.str "mode" with
         | "plain" => some (parsePlain orc blob)
-        | "pass" => some (parseWithPass orc blob)
+        | "pass" => (o.hex? "pass").map (fun pw => parseWithPass orc pw blob)
         | _ => none
       match r with
       | none => "bad-op"
